@@ -201,8 +201,10 @@ def run(repo: Repo, L: Ledger, tier: str):
     # the fused scaffold takes name/tag/haplotype from the same piece
     ok_ctor = isinstance(ctor, ast.Call) and dotted(ctor.func) == "Scaffold"
     if ok_ctor:
-        kws = {k.arg: norm(k.value) for k in ctor.keywords}
-        pos_args = [norm(a) for a in ctor.args]
+        from ..util import resolve_local as _rl
+
+        kws = {k.arg: norm(_rl(f, k.value)) for k in ctor.keywords}
+        pos_args = [norm(_rl(f, a)) for a in ctor.args]
         ok_ctor = (pos_args[:1] == [f"{var}.name"] or kws.get("name") == f"{var}.name") and kws.get("tag") == f"{var}.tag" and kws.get("haplotype") == f"{var}.haplotype" and kws.get("rank") == f"{var}.rank"
     L.check(ok_ctor, "R3", f.short + ":inherit", "fused scaffold inherits name, tag, haplotype, rank of its first piece", "fused scaffold does not take name/tag/haplotype/rank from the piece that creates it", f.loc(ctor))
 
